@@ -15,7 +15,8 @@ PROPERTY = "C39"
 LEVEL = "exploration"
 RULE = (
     "hypothesis-generated field sequences (byte, boolean, uint32, uint64, adaptive int, string, text, "
-    "name-list, mpint dense at 0, +-1, +-2^(8k)-1, +-2^(8k), +-2^(8k-1) up to 4096 bits) with interleaved "
+    "name-list of arbitrary comma-free names incl. non-ASCII code points of UTF-8 width 2/3/4 (byte length != "
+    "code-point length), mpint dense at 0, +-1, +-2^(8k)-1, +-2^(8k), +-2^(8k-1) up to 4096 bits) with interleaved "
     "so_far/remainder/rewind probes; non-trivial = >=2 fields and at least one mpint or adaptive int >= 0xFF000000 "
     "or a field whose value sits on a sign/byte boundary; distinct by SHA-1 of the field list"
 )
@@ -38,7 +39,13 @@ mpints = st.one_of(
     st.integers(min_value=-(1 << 64), max_value=1 << 64),
 )
 
-names = st.text(alphabet="abcdefghijklmnopqrstuvwxyz0123456789-@._", min_size=1, max_size=20)
+ascii_names = st.text(alphabet="abcdefghijklmnopqrstuvwxyz0123456789-@._", min_size=1, max_size=20)
+# "name-list without commas": a name is any non-empty text without a comma - including non-ASCII code points of
+# every UTF-8 width (2, 3 and 4 byte sequences), so that "length in bytes" and "length in code points" differ.
+_WIDE = "\u00e9\u00ef\u00df\u0416\u05d0\u0939\u65e5\u672c\u8a9e\u20ac\U0001f511\U00010348"
+wide_names = st.text(alphabet=st.sampled_from(_WIDE + "abz-@."), min_size=1, max_size=12)
+any_names = st.text(alphabet=st.characters(codec="utf-8", exclude_characters=","), min_size=1, max_size=12)
+names = st.one_of(ascii_names, ascii_names.map(lambda v: v), wide_names, any_names)
 
 field = st.one_of(
     st.tuples(st.just("byte"), st.binary(min_size=1, max_size=1)),
@@ -77,7 +84,9 @@ def _ref_encode(kind, v):
     if kind == "text":
         return R.string(v.encode("utf-8"))
     if kind == "list":
-        return R.namelist(v)
+        # RFC 4251 section 5: a name-list is a string holding the comma-separated names; the uint32 length
+        # counts the BYTES of the (UTF-8) encoding, not characters
+        return R.string(",".join(v).encode("utf-8"))
     if kind == "mpint":
         return R.mpint(v)
     raise AssertionError(kind)
@@ -101,6 +110,14 @@ def execute(ctx, case):
         (k == "mpint") or (k == "aint" and v >= 0xFF000000) or (k in ("u32", "u64") and _on_boundary(v)) for k, v in fields
     )
     classes = sorted(set(k for k, _ in fields))
+    for k, v in fields:
+        if k == "list" and any(ord(ch) > 127 for n in v for ch in n):
+            classes.append("list:non-ascii-name")
+            widths = set(len(ch.encode("utf-8")) for n in v for ch in n)
+            classes.extend("list:utf8-width-%d" % w for w in sorted(widths) if w > 1)
+        if k == "text" and any(ord(ch) > 127 for ch in v):
+            classes.append("text:non-ascii")
+    classes = sorted(set(classes))
     ctx.case({"fields": fields, "probes": probes}, nontrivial, classes)
     jcase = {"fields": fields, "probes": probes}
 
